@@ -185,6 +185,7 @@ def splitlines(source):
 
 ASSIST_HEAD = '''
 def assist(project, source, position, filename=None, debug=False):
+    cycle_guard.request()
     source = Source(source, filename, position)
     ctx = EvalCtx(project)
     ln, col = position
@@ -199,6 +200,7 @@ def assist(project, source, position, filename=None, debug=False):
 
 LOCATION = '''
 def location(project, source, position, filename=None, debug=False):
+    cycle_guard.request()
     source = Source(source, filename, position)
 
     debug and print_dump(source.tree)
@@ -294,8 +296,9 @@ def call_site(fn, what, name_exprs):
             if not (isinstance(n.args[1], ast.Name) and n.args[1].id == 'start'
                     or isinstance(n.args[1], ast.Call) and isinstance(n.args[1].func, ast.Name)
                     and n.args[1].func.id == 'np' and len(n.args[1].args) == 1
-                    and isinstance(n.args[1].args[0], ast.Name)):
-                raise Untranslatable('%s: start argument is not np(node): %s' % (what, ast.unparse(n)))
+                    and isinstance(n.args[1].args[0], ast.Name)
+                    or ast.unparse(n.args[1]) == ALIAS_START_CALL):
+                raise Untranslatable('%s: start argument is neither np(node) nor %s: %s' % (what, ALIAS_START_CALL, ast.unparse(n)))
             shift, delims = 0, True
             if len(n.args) >= 3:
                 if not (isinstance(n.args[2], ast.Constant) and type(n.args[2].value) is int and n.args[2].value >= 0):
@@ -311,22 +314,49 @@ def call_site(fn, what, name_exprs):
     return sites[0]
 
 
-def start_is_np_node(fn, what):
-    """visit_Import*: `start = np(node)`"""
-    for s in fn.body:
-        if isinstance(s, ast.Assign) and ast.unparse(s) == 'start = np(node)':
-            return
-    raise Untranslatable('%s: start = np(node) not found' % what)
+ALIAS_START_CALL = 'self.top.alias_start(node, a)'
+
+# SourceScope.alias_start (supp 8033e90): the search for an imported name starts at its alias, not at the statement.  The Lean
+# theorems about find_id_loc quantify over every start; the harness (textgen.alias_start) re-implements this start independently.
+ALIAS_START = '''
+def alias_start(self, node, alias):
+    try:
+        if alias.asname:
+            ln, col = alias.end_lineno, alias.end_col_offset - len(alias.asname.encode('utf-8'))
+        else:
+            ln, col = alias.lineno, alias.col_offset
+        line = self.source.lines[ln - 1]
+    except (AttributeError, TypeError, IndexError):
+        return np(node)
+    col = len(line.encode('utf-8')[:col].decode('utf-8', 'ignore'))
+    if col == 0:
+        return ln - 1, len(self.source.lines[ln - 2])
+    return ln, col - 1
+'''
+
+
+def start_is_alias_start(fn, what, scope_tree):
+    """visit_Import*: the start argument is `self.top.alias_start(node, a)` inside `for a in node.names`, and
+    SourceScope.alias_start is the audited function"""
+    loops = [s for s in fn.body if isinstance(s, ast.For) and ast.unparse(s.target) == 'a' and ast.unparse(s.iter) == 'node.names']
+    if len(loops) != 1:
+        raise Untranslatable('%s: `for a in node.names` not found' % what)
+    cls = find_def(scope_tree.body, 'SourceScope', (ast.ClassDef,))
+    fn2 = find_def(cls.body, 'alias_start')
+    body = [s for s in fn2.body if not (isinstance(s, ast.Expr) and isinstance(s.value, ast.Constant))]
+    tmpl = ast.parse(ALIAS_START).body[0]
+    if ast.dump(fn2.args) != ast.dump(tmpl.args) or [ast.dump(s) for s in body] != [ast.dump(s) for s in tmpl.body]:
+        raise Untranslatable('SourceScope.alias_start is not the modelled shape')
 
 
 def assist_parts(fn):
     """-> (from_regex, sep2, regex)"""
     body = [s for s in fn.body if not (isinstance(s, ast.Expr) and isinstance(s.value, ast.Constant))]
-    if len(body) < 7 or not isinstance(body[5], ast.If):
+    if len(body) < 8 or not isinstance(body[6], ast.If):
         raise Untranslatable('assist: head is not the modelled shape')
     try:
-        from_regex = body[4].value.args[0].value
-        sep2 = body[5].body[0].value.args[0].value
+        from_regex = body[5].value.args[0].value
+        sep2 = body[6].body[0].value.args[0].value
     except (AttributeError, IndexError):
         raise Untranslatable('assist: from-branch is not the modelled shape')
     for v in (from_regex, sep2):
@@ -335,12 +365,11 @@ def assist_parts(fn):
     if len(sep2) != 1:
         raise Untranslatable('assist: the rpartition separator must be a single character')
     tmpl = ast.parse(ASSIST_HEAD % (from_regex, sep2)).body[0]
-    if [ast.dump(s) for s in body[:6]] != [ast.dump(s) for s in tmpl.body]:
-        raise Untranslatable('assist: head (line = ...[:col], from-branch) is not the modelled shape')
-    body = body[:5] + body[5:]
+    if [ast.dump(s) for s in body[:7]] != [ast.dump(s) for s in tmpl.body]:
+        raise Untranslatable('assist: head (request start, line = ...[:col], from-branch) is not the modelled shape')
     # the generic prefix
     regex = None
-    for s in body[6:]:
+    for s in body[7:]:
         if isinstance(s, ast.Assign) and len(s.targets) == 1 and isinstance(s.targets[0], ast.Name) \
                 and s.targets[0].id == 'prefix':
             v = s.value
@@ -356,7 +385,7 @@ def assist_parts(fn):
     if regex is None:
         raise Untranslatable('assist: no prefix = re.split(<literal>, line)[-1]')
     # every other return hands back that prefix; the last one filters marked names and sorts
-    rets = [n for s in body[6:] for n in ast.walk(s) if isinstance(n, ast.Return)]
+    rets = [n for s in body[7:] for n in ast.walk(s) if isinstance(n, ast.Return)]
     for r in rets:
         if not (isinstance(r.value, ast.Tuple) and len(r.value.elts) == 2 and ast.unparse(r.value.elts[0]) == 'prefix'):
             raise Untranslatable('assist: a return does not hand back the text prefix: ' + ast.unparse(r))
@@ -423,8 +452,8 @@ def translate(repo):
     visitor = find_def(nast.body, 'extract_visitor', (ast.ClassDef,))
     v_import = find_def(visitor.body, 'visit_Import')
     v_from = find_def(visitor.body, 'visit_ImportFrom')
-    start_is_np_node(v_import, 'visit_Import')
-    start_is_np_node(v_from, 'visit_ImportFrom')
+    start_is_alias_start(v_import, 'visit_Import', scope)
+    start_is_alias_start(v_from, 'visit_ImportFrom', scope)
     import_site = call_site(v_import, 'visit_Import', ('name',))
     from_site = call_site(v_from, 'visit_ImportFrom', ('name',))
 
